@@ -3,7 +3,7 @@ EXTENDS Tune, Json
 CONSTANTS MaxCand, MaxLoss, EmitVectors
 VARIABLES stage, cfg
 vars == <<stage, cfg>>
-Tables2 == [1..2 -> 1..MaxLoss]       \* two folds
+Tables2 == [1..2 -> 1..MaxLoss] \cup {[f \in 1..2 |-> 0]}      \* two folds; the all-zero table: score undefined in every fold
 Init == stage = "opts" /\ cfg = [tables |-> << >>, gib |-> FALSE, refit |-> TRUE, kind |-> "grid", nest |-> "plain", n |-> 8]
 PickOpts == /\ stage = "opts"
             /\ \E g \in BOOLEAN, r \in BOOLEAN, k \in {"grid", "random"}, ne \in {"plain", "pipe", "mux"}, n \in {7, 9} :
@@ -13,15 +13,20 @@ AddCand == /\ stage = "cands" /\ Len(cfg.tables) < MaxCand
            /\ \E t \in Tables2 : (\A i \in DOMAIN cfg.tables : cfg.tables[i] # t)    \* distinct parameter values
                                  /\ cfg' = [cfg EXCEPT !.tables = Append(@, t)]
            /\ UNCHANGED stage
-Finish == stage = "cands" /\ Len(cfg.tables) >= 2 /\ stage' = "done" /\ UNCHANGED cfg
+\* at least one candidate has a defined score, at most one an undefined one
+Finish == /\ stage = "cands" /\ Len(cfg.tables) >= 2
+          /\ \E i \in DOMAIN cfg.tables : Defined(cfg, i)
+          /\ Cardinality({i \in DOMAIN cfg.tables : ~Defined(cfg, i)}) <= 1
+          /\ stage' = "done" /\ UNCHANGED cfg
 Next == PickOpts \/ AddCand \/ Finish
 Spec == Init /\ [][Next]_vars
 Done == stage = "done"
 \* design checks: a best candidate exists and nobody beats it; ties are all admissible
 Inv_BestExists == Done => BestSet(cfg) # {}
 Inv_BestIsExtreme ==
-    Done => \A i \in BestSet(cfg) : \A j \in DOMAIN cfg.tables :
+    Done => \A i \in BestSet(cfg) : \A j \in DOMAIN cfg.tables : Defined(cfg, j) =>
                 IF cfg.gib THEN Score(cfg, i) >= Score(cfg, j) ELSE Score(cfg, i) <= Score(cfg, j)
+Inv_UndefinedNeverBest == Done => \A i \in BestSet(cfg) : Defined(cfg, i)
 \* the direction matters: the loss-optimal and the greater-is-better-optimal candidate coincide,
 \* because greater-is-better scores are the negated losses
 Inv_DirectionConsistent ==
